@@ -293,6 +293,9 @@ impl<'a, B: Backend> Exec<'a, B> {
                 let hs: HashSet<BytesDigest> = set.iter().copied().collect();
                 let got = self.be.evict_settled(&hs);
                 self.model.remove(&targets);
+                if targets.iter().any(|(k, _)| self.model.buckets.get(k).map(|b| b.entries.len() >= 2).unwrap_or(false)) {
+                    self.probes.inc("settlement_partial_with_two_or_more_survivors");
+                }
                 if got != targets.len() {
                     findings.push(("custody:evict-settled-count".into(), format!("returned {got}, {} proofs carry a settled nullifier", targets.len())));
                 }
@@ -315,6 +318,9 @@ impl<'a, B: Backend> Exec<'a, B> {
                 let buckets_before = self.model.buckets.len();
                 let got = self.be.evict_older_than(Duration::from_nanos(*max_age_ns));
                 self.model.remove(&targets);
+                if targets.iter().any(|(k, _)| self.model.buckets.get(k).map(|b| b.entries.len() >= 2).unwrap_or(false)) {
+                    self.probes.inc("expiry_partial_with_two_or_more_survivors");
+                }
                 if got != targets.len() {
                     findings.push(("custody:evict-older-count".into(), format!("returned {got}, {} proofs are older than the cutoff", targets.len())));
                 }
